@@ -49,6 +49,19 @@ func (c06) Gen(env *Env, seed uint64, tier string, i int) *Case {
 	for _, ch := range all {
 		triggers = append(triggers, ch.T.Trigger(ch.K))
 	}
+	if r.Chance(1, 4) {
+		// a patch whose replacement fails at rewrite time for the file it matches
+		for i := range c.Patches {
+			if c.Patches[i].Via == "stdin" {
+				c.Patches[i].Via = "p"
+				c.Patches[i].Path = PatDir + "/p0.patch"
+				c.SetNode(world.NodeSpec{Path: c.Patches[i].Path, Kind: "file", Data: c.Patches[i].Data})
+			}
+		}
+		c.AddPatch("ill.patch", c.Patches[0].Via, []byte("@@\nvar x expression\n@@\n-vfOldE(x)\n+bar(func() { var x int })\n\n@@\nvar y expression\n@@\n-vfOldF(y)\n+vfNewF(y, z)\n"), nil, []string{"vfOldE", "vfOldF"})
+		triggers = append(triggers, "vfOldE", "vfOldF")
+		c.Extra["ill_patch"] = "1"
+	}
 	corpus := Corpus()
 	n := r.Range(1, 6)
 	for j := 0; j < n; j++ {
@@ -321,7 +334,12 @@ func (c06) Eval(env *Env, c *Case) []Violation {
 
 // sources on which Apply fails (does not parse), used to put a failing call
 // in front of the unmatched ones
-var c06FailingSources = []string{"package broken\n\nfunc {{{\n"}
+var c06FailingSources = []string{
+	"package broken\n\nfunc {{{\n",
+	"package a\n\nfunc f() {\n\tvfOldE(1 + 2)\n}\n",
+	"package a\n\nfunc f() {\n\tvfOldF(q)\n}\n",
+	"package a\n\nfunc f() {\n\tvfOldE(g(1))\n\tvfOldF(2)\n}\n",
+}
 
 func c06Key(c *Case) string {
 	var parts []string
